@@ -41,11 +41,15 @@ TOL = 5e-6
 def gen_scenes(ctx, n_per_cfg):
     rng = ctx.rng("corr")
     scenes = []
+    seen = {}
     for kind, N, psf, opts in RC.standard_configs(rng, ctx.tier):
         for i in range(n_per_cfg):
             mode = "multi" if i % 2 else "single"
             k = int(rng.integers(1, 6)) if mode == "multi" else 1
-            types = [str(rng.choice(RC.PROFILE_TYPES)) for _ in range(k)]
+            # the first type cycles through all seven per renderer kind (each renderer has its own methods per type), the rest are random
+            j = seen.get(kind, 0)
+            seen[kind] = j + 1
+            types = [RC.PROFILE_TYPES[j % len(RC.PROFILE_TYPES)]] + [str(rng.choice(RC.PROFILE_TYPES)) for _ in range(k - 1)]
             s = RC.gen_scene(rng, kind, N, psf, types=types, mode=mode, **opts)
             # zero / negative fluxes
             for key in list(s["params"]):
